@@ -37,6 +37,8 @@ def gen_talker(rng, label, cfg):
     writes = []
     text = gen_text(rng, cfg)
     big = cfg.get("big") and rng.chance(50)
+    if cfg.get("stall") and rng.chance(60):
+        text = gen_text(rng, cfg, rng.choice([5000, 9000, 20000]))
     if big:
         size = rng.choice([65536, 70000, 140000, 200000])
         writes.append({"fd": 1, "n": size, "seed": 9000 + rng.below(900), "printable": True})
@@ -406,7 +408,8 @@ class C11Runner(LineRunner):
 
 BENIGN = {"special_pct": 0}
 CONFIGS = {
-    "plain": (dict(BENIGN, max_cmds=3), 27),
+    "plain": (dict(BENIGN, max_cmds=3), 19),
+    "stalled_shell": (dict(BENIGN, max_cmds=2, stall=True, stderr_pct=60, stderr_sizes=[10, 5000, 70000]), 8),
     "multiline_c": (dict(BENIGN), 8),
     "big_stdout": (dict(BENIGN, max_cmds=1, big=True, forms=["hs", "hs", "assign_big"], stderr_pct=30), 15),
     "stderr_volume": (dict(BENIGN, max_cmds=2, stderr_pct=100, stderr_sizes=[100, 5000, 60000, 70000]), 15),
@@ -438,6 +441,9 @@ def make_case(seed, index):
         sc = gen_scenario(rng, cfg)
     sc["config"] = name
     sc["adversarial_picks"] = rng.choice([0, 5, 20, 60, 150])
+    if cfg.get("stall"):
+        sc["stall_shell"] = True
+        sc["adversarial_picks"] = rng.choice([20, 60, 150])
     return sc, rng
 
 
